@@ -192,6 +192,29 @@ func sortedAfter(info *types.Info, list []ast.Stmt, i int, xs types.Object) (str
 	return "", token.NoPos, false
 }
 
+// stripFilters removes leading `if COND { continue }` statements (with an
+// optional `x, ok := …` init) from a loop body: a collect loop that skips some
+// entries is still a collect loop; what matters is that the result is sorted
+// afterwards.
+func stripFilters(body []ast.Stmt) []ast.Stmt {
+	for len(body) > 1 {
+		is, ok := body[0].(*ast.IfStmt)
+		if !ok || is.Else != nil || len(is.Body.List) == 0 {
+			break
+		}
+		br, ok := is.Body.List[len(is.Body.List)-1].(*ast.BranchStmt)
+		if !ok || br.Tok != token.CONTINUE {
+			break
+		}
+		// the skipped branch may only contain comments / the continue itself
+		if len(is.Body.List) != 1 {
+			break
+		}
+		body = body[1:]
+	}
+	return body
+}
+
 // singletonTypes: the per-parse / per-module singletons; a slice, counter or
 // plain field of one of these written from inside a map range makes the result
 // depend on iteration order.
@@ -200,6 +223,12 @@ var singletonTypes = map[string]bool{"asm.generator": true, "asm.oldIndex": true
 // det1Frozen: order-insensitive writes to singletons, one reason each.
 var det1Frozen = map[string]string{
 	"field asm.generator.todo": "work list of blockaddress constants; translate drains it with one independent fix-up per entry, so its order does not reach the module",
+}
+
+// det1ConsultExempt: map ranges that store into and consult the same index, where the
+// entries consulted cannot be entries stored by the same loop; keyed "<obligation key> <map>".
+var det1ConsultExempt = map[string]string{
+	"asm.(*generator).createTypeDefs range oldIndex.typeDefs#2 newIndex.typeDefs": "second loop of createTypeDefs: it stores only the entries of type aliases (`%a = type %b`, selected by the *ast.NamedType filter) and consults only the entry of the definition the alias chain ends in, which is not an alias and was stored by the preceding, completed loop; no iteration reads what another iteration of this loop writes",
 }
 
 func ruleDET1(c *Ctx) []Obligation {
@@ -212,8 +241,8 @@ func ruleDET1(c *Ctx) []Obligation {
 			key += fmt.Sprintf("#%d", mr.ord+1)
 		}
 		o := Obligation{Key: key, Pos: c.pos(mr.rs.Pos()), Verdict: OK}
-		body := mr.rs.Body.List
-		// (a) collect-then-sort
+		body := stripFilters(mr.rs.Body.List)
+		// (a) collect-then-sort (a collect loop may skip entries: `if COND { continue }` before the append)
 		if len(body) == 1 {
 			if as, ok := body[0].(*ast.AssignStmt); ok && len(as.Lhs) == 1 && len(as.Rhs) == 1 {
 				if call, ok := as.Rhs[0].(*ast.CallExpr); ok && exprString(call.Fun) == "append" && len(call.Args) == 2 {
@@ -411,6 +440,9 @@ func ruleDET1(c *Ctx) []Obligation {
 			}
 			for m, sp := range storesM {
 				if lp, ok := looksM[m]; ok && strings.HasPrefix(m, "newIndex.") {
+					if _, ex := det1ConsultExempt[key+" "+m]; ex {
+						continue
+					}
 					problems = append(problems, fmt.Sprintf("stores into %s (%s) and also consults it (%s) while ranging in map order", m, c.pos(sp), c.pos(lp)))
 				}
 			}
@@ -524,7 +556,7 @@ func ruleORDSORT(c *Ctx) []Obligation {
 		if mr.p.PkgPath != pkgASM {
 			continue
 		}
-		body := mr.rs.Body.List
+		body := stripFilters(mr.rs.Body.List)
 		if len(body) != 1 {
 			continue
 		}
